@@ -48,6 +48,16 @@ def check(ctx):
             ok = ok and all(s_.id in V.cfg.reachable(n.id) for n in sd)
             tsucc = [b for b, lab in V.cfg.succ[t[0].id] if lab == "T"] if t else []
             ok = ok and bool(tsucc) and V.cfg.always_reaches([t[0].id], [n.id for n in sd] + [b for b, lab in V.cfg.succ[t[0].id] if lab == "F"], ends=[s_.id])
+            # nothing else is done with the stale (possibly dead) entry on the way: an I/O call on it can raise and the new
+            # connection, already taken off the accept queue, would never be entered
+            if t:
+                between = V.cfg.reachable([b for b, lab in V.cfg.succ[t[0].id] if lab == "T"], removed_nodes=[s_.id])
+                for i in between:
+                    for x in V.cfg.walk_node(V.cfg.nodes[i]):
+                        if isinstance(x, ast.Call) and isinstance(x.func, ast.Attribute) and src(x.func.value) == "self.ixes[%s]" % key \
+                                and x.func.attr not in ("shutdown", "shutclose", "close", "shutdownSend", "shutdownReceive"):
+                            ok = False
+                            ctx.note("%s.%s: %s on the stale entry before replacement" % (cn, fname, src(x)[:60]))
             ctx.check(ok, "T1-replace", s_.ast, "%s.%s: stale entry for %s shut down before self.ixes[%s] = %s" % (cn, fname, key, key, val),
                       "a new connection from an address that still has an entry replaces it without shutting the stale "
                       "connection down (or raises): the stale socket leaks")
